@@ -1,1 +1,2 @@
 pub mod store;
+pub mod session;
